@@ -211,22 +211,34 @@ def run(tier="quick", only_key=None):
             mask = nf.f.get("dealiasing_mask")
             key = f"{cls.qual}#alias-free#Nparity={parity}"
             at = loc(cls.find("__init__"))
-            if mask is None:
-                ck.fail("alias-free", key, at, "nonlinear term without dealiasing mask")
+            n_alias += _alias_row(ck, key, at, p, mask, pub)
+    # ---- ... and with the DEFAULT fraction of every nonlinear-function class that has one
+    n_cls_default = 0
+    for parity in (0, 1):
+        itp = new_interp(ck.repo, parity=parity, stub_etdrk=True)
+        _, classes_p = nonlinear_classes(itp)
+        for cls in classes_p:
+            init = cls.find("__init__")
+            pos, kwp, pos_def, posann = catalog.init_params(cls)
+            if "dealiasing_fraction" not in kwp or kwp["dealiasing_fraction"][1] is None:
                 continue
-            cut = _cutoff_of(mask.data[0])
-            if cut is None:
-                ck.fail("alias-free", key, at, f"mask is not an axis-wise low-pass: {mask.data[0]}")
-                continue
-            n_alias += 1
-            expr = (p + 1) * cut - N  # must be < 0 for all N of this parity
-            lead, const = _linear_in_N(expr)
-            ok = lead is not None and (lead < 0 or (lead == 0 and const < 0)) and (lead == 0 or const <= 0 or _small_N_ok(lead, const, parity))
-            if ok:
-                ck.ok("alias-free", key, form=(p, str(cut)))
-                ck.sample({"rule": "alias-free", "stepper": pub, "degree": p, "cutoff": str(cut), "(p+1)*cutoff-N": str(expr)})
-            else:
-                ck.fail("alias-free", key, at, f"degree-{p} term with default cutoff {cut}: (p+1)*cutoff - N = {expr} is not negative for all N", code=str(expr))
+            for D in (1, 2, 3):
+                rws = rows(cls, D)
+                if not rws:
+                    continue
+                label, kw, Cn, spec = rws[0]
+                kw = dict(kw)
+                kw.pop("_nofraction", None)
+                if not kw.pop("_noderiv", False):
+                    kw["derivative_operator"] = Tens((D,) + (N,) * (D - 1) + (H_of(parity),), C.deriv(D, L))
+                o = itp.call(cls, [D, N], kw)
+                res = itp.call(o, [state_hat(D, Cn, parity)])
+                code = [strip_injection(e) for e in res.data] if cls.name.endswith("Kolmogorov") else list(res.data)
+                pdeg = max(SP.degree_in_state(e) for e in code)
+                key = f"{cls.qual}#alias-free-default#D={D},Nparity={parity}"
+                n_cls_default += _alias_row(ck, key, loc(init), pdeg, o.f.get("dealiasing_mask"), cls.name)
+                break
+    ck.floor("nonlinear-function classes with a default fraction (x parity)", n_cls_default, 4)
     ck.floor("alias-free rows", n_alias, 40)
     ck.assumptions += [
         "ifft/fft are exact inverse linear maps (library); a product of p band-limited factors has modes up to p*K",
@@ -238,6 +250,26 @@ def run(tier="quick", only_key=None):
         rule_text="one program = (nonlinear class, D, parity, flag row[, world]) or (stepper, parity) for alias-freeness; distinct = distinct canonical forms",
         trusted=["CPython ast", "vf normal forms", "specs/nonlinear.py", "rfftn/irfftn are inverse linear maps"],
     )
+
+
+def _alias_row(ck, key, at, p, mask, pub):
+    if mask is None:
+        ck.fail("alias-free", key, at, "nonlinear term without dealiasing mask")
+        return 0
+    cut = _cutoff_of(mask.data[0])
+    if cut is None:
+        ck.fail("alias-free", key, at, f"mask is not an axis-wise low-pass: {mask.data[0]}")
+        return 0
+    expr = (p + 1) * cut - N  # must be < 0 for all N of this parity
+    lead, const = _linear_in_N(expr)
+    parity = 1 if "Nparity=1" in key else 0
+    ok = lead is not None and (lead < 0 or (lead == 0 and const < 0)) and (lead == 0 or const <= 0 or _small_N_ok(lead, const, parity))
+    if ok:
+        ck.ok("alias-free", key, form=(p, str(cut)))
+        ck.sample({"rule": "alias-free", "class": pub, "degree": p, "cutoff": str(cut), "(p+1)*cutoff-N": str(expr)})
+    else:
+        ck.fail("alias-free", key, at, f"degree-{p} term with default cutoff {cut}: (p+1)*cutoff - N = {expr} is not negative for all N", code=str(expr))
+    return 1
 
 
 def _cutoff_of(maskpoly):
